@@ -45,6 +45,8 @@ def run(ctx):
     malsec.padding_guard(ctx, facts, "GUARD-padding")
     malsec.dzkp_verify_guard(ctx, facts, "GUARD-dzkp")
     malsec.dzkp_validate_path(ctx, facts, "PATH-verdict")
+    malsec.reveal_impls(ctx, facts, "WHO-reveal")
+    malsec.multiply_impls(ctx, facts, "WHO-multiply")
     malsec.batch_store_grows(ctx, facts, "STORE-grow")
     malsec.segment_packing(ctx, facts, "PACK-slots")
     malsec.drop_guard(ctx, facts, "WHO-drop")
